@@ -17,6 +17,7 @@
 -/
 import IvpModel.Proofs.NormLemmas
 import Mathlib.Analysis.Real.Sqrt
+import IvpModel.Proofs.BdfNumLemmas
 
 noncomputable section
 
@@ -76,3 +77,12 @@ theorem c01_controller_bounds {n : Nat} (err expo1 facold beta facc2 facc1 safet
       (facc1 := facc1) (safety_factor := safety) (h := h)
     facc2 ≤ r.fac ∧ r.fac ≤ facc1 ∧ r.hnew = h / r.fac ∧ |h| / facc1 ≤ |r.hnew| ∧ |r.hnew| ≤ |h| / facc2 :=
   dopri5_hnew_bounds err expo1 facold beta facc2 facc1 safety h h2 h12
+
+/-- BDF: `weighted_rms_scaled` (used for the corrector increments, the error test and the order selection) is the RMS
+    norm of `values / scale`, zero scales replaced by eps (`Model/BdfNum.lean`, tied by X-bdfnum) -/
+theorem c01_errnorm_spec_bdf {K : Type} [Field K] [LinearOrder K] [IsStrictOrderedRing K] [SqrtPow K]
+    (L : BdfNum.NLits K) (hL : BdfNum.LitOK L) (values scale : Array K) (hs : values.size = scale.size) :
+    BdfNum.weightedRms L values scale =
+      SqrtPow.sqrt (((List.range values.size).map fun i =>
+        (BdfNum.g values i / (if BdfNum.g scale i = 0 then L.eps else BdfNum.g scale i)) ^ 2).sum / (values.size : K)) :=
+  BdfNum.weightedRms_spec L hL values scale hs
